@@ -5,6 +5,7 @@ schedules; the same schedule drives the Lean interleaving model (Model/Pool.lean
 queue digest and enabled set are compared.  An independent oracle judges the property on the implementation's run.
 """
 import json
+import math
 import os
 import random
 import time
@@ -169,7 +170,7 @@ class PoolProp:
                    work_cap=rng.choice(["default", "default", None, 1.0, 0.5, 2.0]) if factory else
                    rng.choice(["default", "default", None, 1, 2, 0.5]),
                    res_cap=rng.choice([None, None, 1, 2, 3]), factory=factory,
-                   quota=rng.choice([1, 1, 2, 3]) if factory else None, wait_ready=rng.random() < 0.3, calls=calls,
+                   quota=rng.choice([1, 1, 2, 3, 2.0, 2.5]) if factory else None, wait_ready=rng.random() < 0.3, calls=calls,
                    none_inputs=rng.random() < 0.25, body_raises=rng.random() < 0.2,
                    impatient=(tier != "cover" and rng.random() < 0.15), input_kind=rng.randrange(5))
 
@@ -322,7 +323,7 @@ class PoolProp:
                     return (f"worker {wid} lifecycle log {s!r} is not begin·item*·end", "lifecycle")
                 if not exited and (log[:1] != ["b"] and log != [] or log.count("b") > 1 or "e" in log):
                     return (f"running worker {wid} has lifecycle log {s!r}", "lifecycle")
-                if cfg.quota is not None and sum(1 for x in log if x.startswith("i")) > cfg.quota:
+                if cfg.quota is not None and sum(1 for x in log if x.startswith("i")) > math.ceil(cfg.quota):
                     return (f"worker {wid} processed more than its quota {cfg.quota}: {s}", "quota")
             if status == "done":
                 running = [n for n, fin in env.final_finished.items() if n.startswith("W") and not fin]
